@@ -10,7 +10,7 @@ From Flyt Require Import Base FlowTable Engine BatchConc EngineFacts BaseFacts B
 From Coq Require Import Lia.
 
 Lemma tid_is_cancel t : t = TCancel \/ t <> TCancel.
-Proof. destruct t; [right|right|right|left]; try discriminate; reflexivity. Qed.
+Proof. destruct t; [right|right|right|left|right]; try discriminate; reflexivity. Qed.
 
 Section Stop.
 Variable o : oracle.
@@ -45,7 +45,7 @@ Qed.
 
 Lemma bstep_stop s t s' : bstep s t = Some s' -> stopf s = true -> stopf s' = true.
 Proof.
-  intros H Hs. destruct t as [|k|k|]; cbn [BatchConc.bstep] in H.
+  intros H Hs. destruct t as [|k|k| |]; cbn [BatchConc.bstep] in H.
   - destruct (mpc s).
     + destruct (adding s); [destruct (Nat.ltb (enq s - deq s) qcap)|destruct (Nat.ltb (enq s) (nitems items))];
         inv H; auto.
@@ -57,6 +57,7 @@ Proof.
     + inv H. apply task_step_stop; auto.
   - destruct (nth_error (ws s) k) as [[|i pc|]|]; try discriminate.
     destruct (closed s); inv H; auto.
+  - inv H; auto.
   - inv H; auto.
 Qed.
 
@@ -129,7 +130,7 @@ Lemma bstep_unstarted s t s' i :
   BInv s -> stopf s && stopmode = true -> unstarted s i -> bstep s t = Some s' -> unstarted s' i.
 Proof.
   intros B Hss [Hil Hst] H.
-  destruct t as [|k|k|]; cbn [BatchConc.bstep] in H.
+  destruct t as [|k|k| |]; cbn [BatchConc.bstep] in H.
   - (* the submitter: nothing about items changes *)
     assert (Same : ws s' = ws s /\ ilog s' = ilog s /\ deq s' = deq s).
     { destruct (mpc s).
@@ -212,6 +213,7 @@ Proof.
       * rewrite nth_error_set_nth_eq in Hr by exact Hlt. discriminate.
       * rewrite nth_error_set_nth_ne in Hr by exact Hnk. apply (Hnr pc). exists k'. exact Hr.
   - inv H. split; assumption.
+  - inv H. split; assumption.
 Qed.
 
 (* C09: once the stop flag is up, an item that has not yet passed its stop-flag check is never
@@ -248,7 +250,7 @@ Lemma bstep_allowance s t s' i m :
   BInv s -> cancelled (base s) = true -> allowance_le s i m -> bstep s t = Some s' -> allowance_le s' i m.
 Proof.
   intros B Hc [A1 A2] H.
-  destruct t as [|k|k|]; cbn [BatchConc.bstep] in H.
+  destruct t as [|k|k| |]; cbn [BatchConc.bstep] in H.
   - assert (Same : ws s' = ws s /\ ilog s' = ilog s).
     { destruct (mpc s).
       - destruct (adding s); [destruct (Nat.ltb (enq s - deq s) qcap)|destruct (Nat.ltb (enq s) (nitems items))];
@@ -358,6 +360,7 @@ Proof.
     destruct (Nat.eq_dec k k') as [<-|Hnk].
     + rewrite nth_error_set_nth_eq in Hr by exact Hlt. discriminate.
     + rewrite nth_error_set_nth_ne in Hr by exact Hnk. exists k', a, l. exact Hr.
+  - inv H. split; assumption.
   - inv H. split; assumption.
 Qed.
 
